@@ -1,7 +1,141 @@
-(* Props_C03.v — property C03: ONLY theorem statements. *)
-From Verif Require Import Base C03_Model C03_Proofs.
+(* Props_C03.v — property C03: ONLY theorem statements, each closed by [exact] of a lemma from
+   C03_Proofs*, followed by Print Assumptions. *)
+From Verif Require Import Base C03_Model C03_Proofs C03_Proofs2 C03_Proofs3.
 Open Scope Z_scope.
 
-Theorem c03_absent_is_null : forall k, enc k GAbsent = Some DNull.
-Proof. exact enc_absent. Qed.
-Print Assumptions c03_absent_is_null.
+(* codec round trip, per kind and composed structurally (pointers, Null wrappers, custom
+   Scanner/Valuer, serializers): a well-typed value the driver accepts is read back unchanged,
+   for every storage function that keeps values whose class agrees with the column affinity *)
+Theorem c03_codec_roundtrip : forall store : aff -> dbval -> dbval,
+  (forall a d, compatible a d = true -> store a d = d) ->
+  forall k v d, wfk k = true -> wtb k v = true -> enc k v = Some d ->
+  dec k (store (col_aff k) d) = v.
+Proof. exact codec_roundtrip. Qed.
+Print Assumptions c03_codec_roundtrip.
+
+(* leaves of a nil embedded pointer are written as NULL and read back as zero values *)
+Theorem c03_codec_roundtrip_absent : forall store : aff -> dbval -> dbval,
+  (forall a d, compatible a d = true -> store a d = d) ->
+  forall k, exists d, enc k GAbsent = Some d /\ dec k (store (col_aff k) d) = norm k GAbsent.
+Proof. exact codec_roundtrip_absent. Qed.
+Print Assumptions c03_codec_roundtrip_absent.
+
+(* "representable in the column type" (in range for the width, uint64 below 2^63) is accepted,
+   except by the unixtime serializer on unsigned fields ... *)
+Theorem c03_representable_accepted_partial : forall k v,
+  wfk k = true -> signed_unix k = true -> wtb k v = true -> in_range k v = true ->
+  exists d, enc k v = Some d.
+Proof. exact representable_enc. Qed.
+Print Assumptions c03_representable_accepted_partial.
+
+(* ... where the faithful model fails (reflect.Value.Int on a uint): known finding *)
+Theorem c03_representable_accepted_refuted :
+  exists k v, wfk k = true /\ wtb k v = true /\ in_range k v = true /\ enc k v = None.
+Proof. exists (KSer SUnix (KUint 64)), (GInt 5). repeat split. Qed.
+Print Assumptions c03_representable_accepted_refuted.
+
+(* schema flattening: with distinct column names DBNames lists the fields in declaration order
+   and every column looks up the field that declares it; embeddedPrefix preserves distinctness *)
+Theorem c03_flatten_injective : forall tree,
+  NoDup (map snd (fields_of tree)) ->
+  dbnames tree = map (fun f => (snd f, fst f)) (fields_of tree)
+  /\ NoDup (map fst (dbnames tree)).
+Proof. exact flatten_injective. Qed.
+Print Assumptions c03_flatten_injective.
+
+Theorem c03_flatten_prefix : forall nm p kids,
+  map snd (flatten (FEmbed nm p kids)) = map (fun c => (p ++ c)%string) (map snd (fields_of kids))
+  /\ (NoDup (map snd (fields_of kids)) -> NoDup (map snd (flatten (FEmbed nm p kids)))).
+Proof.
+  intros nm p kids. split; [apply flatten_embed_cols|].
+  intro H. rewrite flatten_embed_cols. apply prefix_nodup. exact H.
+Qed.
+Print Assumptions c03_flatten_prefix.
+
+(* key back-fill, RETURNING path: for every slice and every mix of preset and zero keys, record i
+   carries the key of row i (the row that stores it) *)
+Theorem c03_backfill_returning : forall fs now reversed prio ph is_struct base recs after rows b' j,
+  auto_idx fs 0 = Some j ->
+  is_dbdef (nth j fs (mk_fd [] "" KStr false false false None None 0 0 false)) = true ->
+  int_kind (fd_kind (nth j fs (mk_fd [] "" KStr false false false None None 0 0 false))) = true ->
+  Forall (fun r => length r = length fs /\ exists z, nth j r GAbsent = GInt z) recs ->
+  create_stmt fs now true reversed prio ph is_struct base recs = Some (after, rows, b') ->
+  length after = length recs /\ length rows = length recs /\
+  forall i, (i < length recs)%nat ->
+    let id := nth i (assign base (map (rec_key fs) recs)) 0 in
+    nth j (nth i rows []) DNull = DInt id /\ nth j (nth i after []) GAbsent = GInt id.
+Proof. exact returning_backfill. Qed.
+Print Assumptions c03_backfill_returning.
+
+(* key back-fill, LastInsertId path, arithmetic in both directions: consecutive ids a..a+n-1,
+   the driver reporting the last (reversed) or the first of them, all keys zero *)
+Theorem c03_backfill_lastid_partial : forall reversed n a i,
+  (i < n)%nat ->
+  nth i (backfill_lastid reversed (if reversed then a + Z.of_nat n - 1 else a) (repeat true n)) None
+  = Some (a + Z.of_nat i).
+Proof. exact backfill_lastid_all_zero. Qed.
+Print Assumptions c03_backfill_lastid_partial.
+
+(* on SQLite (ids from the AUTOINCREMENT rule): correct when all keys are zero ... *)
+Theorem c03_lastid_all_zero_partial : forall n base,
+  keys_after_lastid true base (repeat 0 n) = assign base (repeat 0 n).
+Proof. exact lastid_correct_all_zero. Qed.
+Print Assumptions c03_lastid_all_zero_partial.
+
+(* ... or all preset ... *)
+Theorem c03_lastid_all_preset_partial : forall reversed keys base,
+  Forall (fun k => k <> 0) keys -> keys_after_lastid reversed base keys = assign base keys.
+Proof. exact lastid_correct_all_preset. Qed.
+Print Assumptions c03_lastid_all_preset_partial.
+
+(* ... and wrong for a slice mixing preset and zero keys (witness [0; 10; 0]: record 0 gets 10) *)
+Theorem c03_backfill_lastid_refuted :
+  exists base keys, keys_after_lastid true base keys <> assign base keys.
+Proof. exact lastid_mixed_refuted. Qed.
+Print Assumptions c03_backfill_lastid_refuted.
+
+(* []map destinations without RETURNING *)
+Theorem c03_backfill_maps_partial : forall n base,
+  backfill_maps true (last_z (assign base (repeat 0 n)) 0) n = assign base (repeat 0 n).
+Proof. exact backfill_maps_all_absent. Qed.
+Print Assumptions c03_backfill_maps_partial.
+
+Theorem c03_backfill_maps_refuted :
+  exists base keys, backfill_maps true (last_z (assign base keys) 0) (length keys) <> assign base keys.
+Proof. exact backfill_maps_preset_refuted. Qed.
+Print Assumptions c03_backfill_maps_refuted.
+
+(* the composed statement, RETURNING path: every stored cell decodes to the value the in-memory
+   record holds after Create (parsed defaults, tracked times, generated keys, database defaults) *)
+Theorem c03_cell_roundtrip : forall f now incl id v c,
+  wf_fdesc f -> wf_val (fd_kind f) v ->
+  cell f now incl id v = Some c ->
+  dec (fd_kind f) c =
+  norm (fd_kind f) (if is_dbdef f then set_from_db (fd_kind f) v c else filled f now v).
+Proof. exact cell_roundtrip_returning. Qed.
+Print Assumptions c03_cell_roundtrip.
+
+Theorem c03_record_roundtrip : forall fs now incl id prio lastid r row,
+  Forall wf_fdesc fs -> length r = length fs -> length incl = length fs ->
+  (forall j d, (j < length fs)%nat -> wf_val (fd_kind (nth j fs d)) (nth j r GAbsent)) ->
+  row_of fs now incl id r = Some row ->
+  forall j d, (j < length fs)%nat ->
+    nth j (read_rec fs row) GAbsent
+    = norm (fd_kind (nth j fs d)) (nth j (after_rec fs now true prio row lastid r) GAbsent).
+Proof. exact record_roundtrip_returning. Qed.
+Print Assumptions c03_record_roundtrip.
+
+(* non-vacuity *)
+Example c03_roundtrip_instance :
+  wfk (KPtr (KNull (KInt 8))) = true /\ wtb (KPtr (KNull (KInt 8))) (GSome (GSome (GInt (-128)))) = true
+  /\ enc (KPtr (KNull (KInt 8))) (GSome (GSome (GInt (-128)))) = Some (DInt (-128)).
+Proof. repeat split. Qed.
+
+Example c03_returning_instance :
+  let f := mk_fd ["ID"%string] "id"%string (KUint 64) true true true None None 0 0 false in
+  let g := mk_fd ["V"%string] "v"%string KStr false false false None None 0 0 false in
+  create_stmt [f; g] 0 true true "id"%string true false 7
+              [[GInt 0; GStr "a"]; [GInt 10; GStr "b"]; [GInt 0; GStr "c"]]
+  = Some ([[GInt 8; GStr "a"]; [GInt 10; GStr "b"]; [GInt 11; GStr "c"]],
+          [[DInt 8; DText "a"]; [DInt 10; DText "b"]; [DInt 11; DText "c"]], 11).
+Proof. vm_compute. reflexivity. Qed.
